@@ -21769,6 +21769,11 @@ impl<
 						v.push(format!("in_flight cp={} chan={} ids={:?}", pk, chan_id, ids));
 					}
 				}
+				// the hand-serialized positional per-channel state (announced update status, state flags, HTLC
+				// states incl. the holding cell, pending fee update)
+				for chan in peer.channel_by_id.values().filter_map(Channel::as_funded) {
+					v.extend(chan.verif_positional_state_dump());
+				}
 			}
 			v.sort();
 			out.extend(v);
